@@ -114,6 +114,13 @@ def gen_C15(rng, tier):
                 yb = p.bind('fwd %s %s' % (a, xb2))
                 finish(p, yb, shape, rng, [xb, xb2])
             p.tag('object-reused')
+        if rng.random() < 0.3:
+            # the SAME input tensor again after ResetGradContext: its gradient is that of the new back-propagation only
+            p.add('reset %s %d' % (x0, rng.choice([1, 1, 0])))
+            xr = p.bind('scale %s %s' % (x0, f2b(2.0)))
+            yr = p.bind('fwd %s %s' % (a, xr))
+            finish(p, yr, shape, rng, [x0, xr])
+            p.tag('input-reset-in-place')
         p.tag(kind, 'upstream%d' % depth)
         if kind == 'softmax' and n > 1: p.tag('softmax-multi')
         progs.append(p)
